@@ -331,7 +331,8 @@ class GenOpts:
     spellings: bool = True        # PEP 604 / None-first unions, builtin generics, Annotated wrappers, Final fields
 
 
-COQ_CONTAINERS = ["list", "set", "frozenset", "tuplevar", "tuplefix", "dict", "opt"]
+COQ_CONTAINERS = ["list", "set", "frozenset", "tuplevar", "tuplefix", "dict", "opt",
+                  "seq", "deque", "mapping", "ordereddict", "counter", "chainmap", "defaultdict", "mappingproxy"]
 
 
 class SchemaGen:
@@ -908,7 +909,7 @@ from harness.vlib import coq_str, coq_z  # noqa: E402
 def in_coq(t: T, fam: Family, seen=None) -> bool:
     seen = seen or set()
     for n in t.walk():
-        if n.kind in ("seq", "deque", "mapping", "ordereddict", "counter", "chainmap", "defaultdict", "mappingproxy", "union", "lit"):
+        if n.kind in ("union", "lit"):
             return False
         if n.kind == "leaf" and n.name == "timezone":
             pass
@@ -952,6 +953,22 @@ def coq_sty(t: T) -> str:
         return "(STupleU [" + "; ".join(pre) + "] " + m + " [" + "; ".join(suf) + "])"
     if k == "dict":
         return f"(SDict {a[0]} {a[1]})"
+    if k == "seq":
+        return f"(SSeq {a[0]})"
+    if k == "deque":
+        return f"(SBox BDeque (SSeq {a[0]}))"
+    if k == "mapping":
+        return f"(SMap {a[0]} {a[1]})"
+    if k == "ordereddict":
+        return f"(SBox BOrdered (SMap {a[0]} {a[1]}))"
+    if k == "defaultdict":
+        return f"(SBox BDefault (SMap {a[0]} {a[1]}))"
+    if k == "mappingproxy":
+        return f"(SBox BProxy (SMap {a[0]} {a[1]}))"
+    if k == "counter":
+        return f"(SBox BCounter (SMap {a[0]} SIntT))"
+    if k == "chainmap":
+        return f"(SBox BChain (SSeq (SMap {a[0]} {a[1]})))"
     if k == "opt":
         return f"(SOpt {a[0]})"
     if k == "data":
@@ -1009,6 +1026,19 @@ def coq_pv(v, seen_leaf=None) -> str:
         return f"(VSet {'true' if type(v) is frozenset else 'false'} [" + "; ".join(items) + "])"
     if type(v) is dict:
         return "(VDict [" + "; ".join(f"({coq_pv(k)}, {coq_pv(x)})" for k, x in v.items()) + "])"
+    # collection classes modelled as a box around their list / dict content (TyModel.box_val)
+    box = {collections.deque: "collections.deque", collections.OrderedDict: "collections.OrderedDict",
+           collections.defaultdict: "collections.defaultdict", types.MappingProxyType: "types.MappingProxyType",
+           collections.Counter: "collections.Counter", collections.ChainMap: "collections.ChainMap"}.get(type(v))
+    if box:
+        if type(v) is collections.deque:
+            inner = coq_pv(list(v))
+        elif type(v) is collections.ChainMap:
+            # ChainMap() is ChainMap({}): the canonical empty ChainMap is represented by the empty list of maps
+            inner = coq_pv([] if v.maps == [{}] else [dict(m) if type(m) is not dict else m for m in v.maps])
+        else:
+            inner = coq_pv(dict(v.items()))
+        return f"(VObj {coq_str(box)} [({coq_str('')}, {inner})])"
     if dataclasses.is_dataclass(v) and not isinstance(v, type):
         fs = "; ".join(f"({coq_str(f.name)}, {coq_pv(getattr(v, f.name))})" for f in dataclasses.fields(v))
         return f"(VObj {coq_str(type(v).__name__)} [{fs}])"
